@@ -44,7 +44,7 @@ def race_signature(block):
 
 
 def stress(R, exe, seed, seconds, rounds, record=300, tag=""):
-    trace = os.path.join(R.work, "conc-trace" + tag)
+    trace = os.path.join(R.work, "conc-trace%s-%d" % (tag, os.getpid()))
     env = vlib.goenv()
     env.update(VERIF_SEED=str(seed), VERIF_N=str(rounds), VERIF_SECONDS=str(seconds), VERIF_RECORD=str(record), VERIF_OUT=trace,
                GORACE="halt_on_error=1 exitcode=66")
@@ -86,6 +86,8 @@ def run(R):
     elif rc not in (0, 66) and not nraces:
         R.oracle_failure("harness-failed:" + str(rc), "the concurrency harness failed (panic, deadlock watchdog or timeout)", dict(seed=R.seed, output=out[-4000:]))
     text = open(trace, errors="replace").read() if os.path.exists(trace) else ""
+    if os.path.exists(trace) and not os.environ.get("VERIF_KEEP"):
+        os.remove(trace)
     rcr, rout = vlib.sh([runner, "conc"], stdin=text, timeout=1500)
     lin_ok = lin_fail = 0
     fails = []
@@ -102,6 +104,15 @@ def run(R):
             R.proof_problems.append("conc runner could not parse: " + l[:200])
     if "DONE" not in rout:
         R.proof_problems.append("conc runner did not finish: " + rout[-300:])
+    # self-test of the history checker: stored bad histories must be rejected, stored good ones accepted
+    import glob
+    for p in sorted(glob.glob(os.path.join(vlib.VERIF, "corpus", "C16", "*.hist"))):
+        want_ok = os.path.basename(p).startswith("good_")
+        rcs, outs = vlib.sh([runner, "conc"], stdin=open(p).read(), timeout=300)
+        verdicts = [l for l in outs.split("\n") if l.startswith("LIN ")]
+        if not verdicts or any((" ok " in l) != want_ok for l in verdicts):
+            R.proof_problems.append("history checker self-test failed on corpus/C16/%s (expected every round %s)" % (os.path.basename(p), "accepted" if want_ok else "rejected"))
+    R.coverage["checker_selftest"] = "corpus/C16/*.hist: bad_* rejected, good_* accepted"
     # rounds: recorded ones (with H lines) and heavy unrecorded ones
     rounds_seen = text.count("\nR ") + (1 if text.startswith("R ") else 0)
     distinct = set()
